@@ -8,13 +8,13 @@ S=/tmp/seed_$id; W=/tmp/sv_$id; OUT=/verif/seeded/$id
 rm -rf $W; git -C /repo worktree prune; git -C /repo worktree add -q $W HEAD || exit 2
 mkdir -p $OUT
 cd $W && ./autogen.sh >/dev/null 2>&1 && make -j4 >/dev/null 2>&1 || { echo "$id: pristine build failed"; exit 2; }
-sh $S/run_demo.sh $W > $OUT/demo_pristine.out 2>&1; rc0=$?
+bash $S/run_demo.sh $W > $OUT/demo_pristine.out 2>&1; rc0=$?
 git apply $S/patch.diff || { echo "$id: patch does not apply to HEAD"; echo "patch does not apply to $(git -C /repo rev-parse --short HEAD)" > $OUT/NOT_APPLICABLE; git -C /repo worktree remove --force $W; exit 3; }
 make -j4 >/dev/null 2>&1 || { echo "$id: patched build failed"; exit 2; }
-sh $S/run_demo.sh $W > $OUT/demo_patched.out 2>&1; rc1=$?
+bash $S/run_demo.sh $W > $OUT/demo_patched.out 2>&1; rc1=$?
 make check > $OUT/make_check_patched.log 2>&1
 # some demonstrations use the test build of the tool (src/test-lha), which only exists after `make check`
-if [ $rc1 -eq 0 ]; then sh $S/run_demo.sh $W > $OUT/demo_patched.out 2>&1; rc1=$?; fi
+if [ $rc1 -eq 0 ]; then bash $S/run_demo.sh $W > $OUT/demo_patched.out 2>&1; rc1=$?; fi
 npass=$(grep -c '^PASS:' $OUT/make_check_patched.log); nfail=$(grep -c '^FAIL:\|^ERROR:' $OUT/make_check_patched.log)
 cp $S/patch.diff $OUT/; for f in $S/*; do case "$f" in *.log|*.out) ;; *) [ -f "$f" ] && [ $(stat -c %s "$f") -lt 300000 ] && cp "$f" $OUT/ ;; esac; done
 [ -d $S/inputs ] && mkdir -p $OUT/inputs && cp $S/inputs/* $OUT/inputs/ 2>/dev/null
